@@ -139,6 +139,42 @@ def decay_cases(ctx, rnd, n):
     return cases
 
 
+def cgmatrix_cases(ctx, rnd, n):
+    """HelicityDecay.get_cg_matrix: every entry vs the exact radical model (Amp/Coupling.v), and the numerical
+    rank of the implementation's matrix = number of couplings (direct property test, spins <= 5/2)"""
+    import numpy as np
+    from tf_pwa.amp import get_particle, get_decay
+    from qfmt import Qq
+    cases = []
+    trip = [(a, b, c) for a in range(6) for b in range(6) for c in range(6) if (a + b + c) % 2 == 0 and abs(b - c) <= a + 5]
+    for k, t in enumerate(rnd.sample(trip, min(n, len(trip)))):
+        P = [rnd.choice((1, -1)) for _ in range(3)]
+        brk = rnd.random() < 0.6
+        a = get_particle("Ag%d" % k, J=J(t[0]), P=P[0]); b = get_particle("Bg%d" % k, J=J(t[1]), P=P[1]); c = get_particle("Cg%d" % k, J=J(t[2]), P=P[2])
+        try:
+            d = get_decay(a, [b, c], p_break=brk)
+            ls = [(int(l), twoj(s_)) for l, s_ in d.get_ls_list()]
+            m = np.array(d.get_cg_matrix())  # (n_ls, n_lb, n_lc)
+        except Exception:
+            ctx.count("cgmatrix_decay_rejected")
+            continue
+        hb = [round(2 * x) for x in d.list_helicity_inner()[0]]; hc = [round(2 * x) for x in d.list_helicity_inner()[1]]
+        items = []
+        for i, (l, s2) in enumerate(ls):
+            for ib, lb in enumerate(hb):
+                for ic, lc in enumerate(hc):
+                    items.append("(%d,%d,%d,%d,%d,%d,%d,%s)" % (t[0], t[1], t[2], l, s2, lb, lc, Qq(float(m[i][ib][ic]))))
+        ctx.evaluations += len(items)
+        ctx.distinct.add(("cgm", t, tuple(P), brk))
+        rank = int(np.linalg.matrix_rank(m.reshape(len(ls), -1), tol=1e-9)) if len(ls) else 0
+        meta = {"t": t, "P": P, "brk": brk, "ls": ls, "rank": rank}
+        cases.append(("cgm%d" % k, "forallb (cgm_ok (1 # 1000000000000)) [%s] = true" % "; ".join(items), "vm_compute; reflexivity", meta))
+        if rank != len(ls):
+            ctx.fail("ls_rank", "rank%d" % k, "LS->helicity matrix of the implementation is rank deficient", inp=meta, site="HelicityDecay.get_cg_matrix", fingerprint="rank",
+                     failing_input={"decay": "J^P = %s^%d -> %s^%d %s^%d, p_break=%s" % (J(t[0]), P[0], J(t[1]), P[1], J(t[2]), P[2], brk), "ls": ls, "rank": rank, "n_ls": len(ls)})
+    return cases
+
+
 def run(ctx):
     rnd = random.Random(ctx.seed * 1000003 + 13)
     ctx.rule = ("exhaustive enumeration of (2ja,2jb,2jc) x 11 parity triples (incl. None) x p_break x ca in {None,+1,-1}; "
@@ -179,6 +215,14 @@ def run(ctx):
             ctx.fail("get_ls_list", cid, "HelicityDecay.get_ls_list differs from model (%s)" % res[cid], inp=m, site="HelicityDecay.get_ls_list", fingerprint="decay",
                      failing_input={"call": "get_decay(A,[B,C],...).get_ls_list()", **{k: str(v) for k, v in m.items()}})
     ctx.sample({"decay_case": dc[0][1]})
+    common.coq_make(["Amp/Coupling.vo"])  # the exact radical model of the coupling matrix
+    cg = cgmatrix_cases(ctx, rnd, 40 if ctx.tier == "quick" else 108)
+    res = common.coq_cases(ctx, "ls_cgm", "From Coq Require Import ZArith List Bool QArith.\nFrom TFV Require Import Rot.Wigner Rot.CG Amp.Coupling.\nImport ListNotations.\nOpen Scope Z_scope.\n",
+                           [c[:3] for c in cg], per_file=6)
+    for (cid, stmt, tac, m) in cg:
+        if res[cid] != "OK":
+            ctx.fail("cg_matrix", cid, "get_cg_matrix differs from the exact radical model (%s)" % res[cid], inp=m, site="HelicityDecay.get_cg_matrix", fingerprint="cgm",
+                     failing_input={k: str(v) for k, v in m.items()})
     return common.finish(ctx, search=search, technique=TECHNIQUE,
                          extra_assumptions=["rank of the LS->helicity map: see evidence of C12 (CG model) - not claimed here beyond the count theorem"])
 
